@@ -48,7 +48,12 @@ ASSUMPTIONS = ["a wrong passphrase gives a *different* secret: proved equivalent
                "hypotheses carried by counted theorems: hF/hF' (round functions preserve length; proved for the executable one: "
                "executable_lengths), hhm (HMAC output >= DIGEST_BYTES; proved for hmacSha256), hH of the *_any_hash variants, "
                "the entropy-source shape hypotheses hgr/hmr (string counts and lengths as _split_secret asks for them), "
-               "W.Nodup in wordlist_index_of_word (checked by the translator, not proved)"]
+               "W.Nodup in wordlist_index_of_word (checked by the translator, not proved), "
+               "hb: 2 <= base in the electrum_generate_* theorems (true of every shipped list: Gen.Mnemonic.WORDLISTS)",
+               "Electrum's candidate search (electrum_generate_*): what a candidate's sentence SPELLS enters as the "
+               "parameters isOld / digits indexed by the candidate integer (old-seed test and HMAC digits of the normalised "
+               "text: the stream electrum.search hands the model the reference normalisation of each candidate's sentence, "
+               "btclib's own is compared with it on the implementation side); `while True` is modelled with a fuel"]
 
 BIP39_LANGS = list(BIP39_LANGUAGE_FILES)
 ENT_SIZES = (128, 160, 192, 224, 256)
@@ -200,6 +205,75 @@ def _i_electrum_bits(idx, base, lang):
         return "bad-line"
     m = mnemonic_from_indexes(unnats(idx), lang, electrum.ELECTRUM_WORDLISTS)
     return "ok " + bits_tok(electrum._bin_str_entropy_from_mnemonic(m, lang))
+
+
+def _el_words(lang):
+    return electrum.ELECTRUM_WORDLISTS.wordlist(lang)
+
+
+def ref_el_indexes(c, base):
+    """Electrum's mnemonic_encode: least significant word first."""
+    out = []
+    while c:
+        c, i = divmod(c, base)
+        out.append(i)
+    return out
+
+
+def ref_el_sentence(c, lang):
+    wl = _el_words(lang)
+    return " ".join(wl[i] for i in ref_el_indexes(c, len(wl)))
+
+
+def ref_el_is_bip39(idx, base):
+    """Electrum's bip39_is_checksum_valid, handed Electrum's own list whatever its length."""
+    n = len(idx)
+    if n not in (12, 15, 18, 21, 24):
+        return False
+    v = 0
+    for i in idx:
+        v = v * base + i
+    cs = 11 * n // 33
+    h = int.from_bytes(hashlib.sha256((v >> cs).to_bytes(4 * cs, "big")).digest(), "big")
+    return v % (1 << cs) == h >> (256 - cs)
+
+
+def ref_el_qualifies(c, lang, prefix):
+    s = ref_el_sentence(c, lang)
+    base = len(_el_words(lang))
+    return (not T.ref_is_old_seed(s)) and (not ref_el_is_bip39(ref_el_indexes(c, base), base)) \
+        and T.ref_seed_version(s).startswith(prefix)
+
+
+def el_search_line(typ, lang, e, count):
+    """`electrum.search` line: what the sentences of candidates e+1 .. e+count spell (reference normalisation and
+    old-seed test; nothing of btclib's output enters the line)."""
+    cands = []
+    for c in range(e + 1, e + 1 + count):
+        s = ref_el_sentence(c, lang)
+        cands.append(f"{1 if T.ref_is_old_seed(s) else 0}:{hx(ref_electrum_normalize(s).encode())}")
+    return f"electrum.search {typ} {len(_el_words(lang))} {e} {lang} {';'.join(cands)}"
+
+
+def _i_electrum_search(typ, base, e, lang, cands):
+    base, e = int(base), int(e)
+    if electrum.ELECTRUM_WORDLISTS.language_length(lang) != base:
+        return "bad-line"
+    for k, tok in enumerate(cands.split(";")):      # the transcript is what btclib itself would hash / recognise
+        flag, sent = tok.split(":")
+        m = electrum._mnemonic_from_int_entropy(e + 1 + k, lang)
+        if (flag == "1") != electrum._is_old_mnemonic(m) or unhx(sent) != electrum._normalize(m).encode():
+            return "bad-line"
+    m = electrum.mnemonic_from_entropy(typ, e, lang)
+    idx = indexes_from_mnemonic(m, lang, electrum.ELECTRUM_WORDLISTS)
+    return f"ok {sum(i * base ** k for k, i in enumerate(idx))} {nats(idx)}"
+
+
+def _i_electrum_isbip39(idx, base, lang):
+    if electrum.ELECTRUM_WORDLISTS.language_length(lang) != int(base):
+        return "bad-line"
+    m = mnemonic_from_indexes(unnats(idx), lang, electrum.ELECTRUM_WORDLISTS)
+    return "ok " + str(electrum._is_bip39_mnemonic(m, lang))
 
 
 _OLD_WL: list = []
@@ -378,7 +452,8 @@ IMPL = {
     "slip39.verify": _i_verify, "slip39.encode": _i_encode, "slip39.decode": _i_decode,
     "slip39.feistel": _i_feistel, "slip39.master": _i_master, "entropy.to_idx": _i_to_idx,
     "entropy.from_idx": _i_from_idx, "bip39.idx": _i_bip39_idx, "bip39.entropy": _i_bip39_entropy,
-    "bip39.seed": _i_bip39_seed, "electrum.seed": _i_electrum_seed, "electrum.type": _i_electrum_type,
+    "bip39.seed": _i_bip39_seed, "electrum.seed": _i_electrum_seed, "electrum.type": _i_electrum_type, "electrum.search": _i_electrum_search,
+    "electrum.isbip39": _i_electrum_isbip39,
     "electrum.old.enc": _i_old_enc, "electrum.old.dec": _i_old_dec, "electrum.idx": _i_electrum_idx, "electrum.bits": _i_electrum_bits, "bip85.entropy": _i_bip85_entropy,
     "bip85.bip39": _i_bip85_bip39, "bip85.hex": _i_bip85_hex, "bip85.sized": _i_bip85_sized, "dispatch.all": _i_dispatch_all, "slip39.generate": _i_generate,
 }
@@ -1420,6 +1495,91 @@ def run(ctx):
                 lines.append(f"electrum.type 0 {hx(electrum._normalize(c).encode())} {nw} {hx(c.encode())}")
                 ctx.count("electrum.2fa_words", str(nw))
                 break
+    # --- Electrum: the candidate search of mnemonic_from_entropy (model: electrumGenerate) -----------------------
+    # the reference finds where the search must stop; the line starts a few candidates below it so that the transcript
+    # stays short, and carries some candidates beyond it (a model that went on would answer something else)
+    def first_qualifying(e, lang, prefix, limit=60000):
+        for c in range(e + 1, e + 1 + limit):
+            if ref_el_qualifies(c, lang, prefix):
+                return c
+        raise common.HarnessError(f"electrum.search: no qualifying candidate within {limit} of {e} ({lang}, {prefix})")
+
+    def near(e, c):
+        return max(e, c - rng.randrange(1, 14))
+
+    s_lines, b_lines = [], []
+    versions = dict(electrum._MNEMONIC_VERSIONS)
+    plan = [("standard", lang) for lang in ["en", "pt", "ja", "es", "zh", "it"][:ctx.n(4, 6)]] * ctx.n(1, 4) \
+        + [(typ, rng.choice(["en", "pt", "zh"])) for typ in ("segwit", "2fa_segwit", "2fa")] * ctx.n(1, 3)
+    for typ, lang in plan:
+        base = len(_el_words(lang))
+        e = rng.getrandbits(rng.choice([120, 128, 131, 132]))
+        if typ == "2fa" and lang != "pt":
+            e = (1 << 125) + rng.getrandbits(125)         # twelve words: the read-back accepts
+        c = first_qualifying(e, lang, versions[typ])
+        e2 = near(e, c)
+        s_lines.append(el_search_line(typ, lang, e2, c - e2 + rng.randrange(0, 3)))
+        nw = len(ref_el_indexes(c, base))
+        ctx.count("electrum.search", f"{typ}:{lang}:{nw}w:{'refused' if typ == '2fa' and nw != 12 and nw < 20 else 'found'}")
+    # "2fa" where the read-back must refuse: 13 words of the 1626-word list, and one- or two-word sentences
+    for lang, e in [("pt", (1 << 131) + rng.getrandbits(130)), ("en", rng.randrange(0, 5000))][:ctx.n(2, 2)]:
+        c = first_qualifying(e, lang, versions["2fa"])
+        e2 = near(e, c)
+        s_lines.append(el_search_line("2fa", lang, e2, c - e2 + 1))
+        ctx.count("electrum.search", f"2fa:{lang}:{len(ref_el_indexes(c, len(_el_words(lang))))}w:refused")
+    # a candidate that carries the prefix AND is valid BIP39: passed over, the search goes on to the next one
+    for lang in ["en", "ja"][:ctx.n(1, 2)]:
+        base = len(_el_words(lang))
+        e = (1 << 125) + rng.getrandbits(125)
+        for c in range(e + 1, e + 400000):
+            idx = ref_el_indexes(c, base)
+            if ref_el_is_bip39(idx, base) and T.ref_seed_version(ref_el_sentence(c, lang)).startswith("01"):
+                break
+        else:
+            raise common.HarnessError("electrum.search: no BIP39-valid candidate with the prefix found")
+        e2 = c - rng.randrange(1, 4)
+        if any(ref_el_qualifies(x, lang, "01") for x in range(e2 + 1, c)):
+            e2 = c - 1
+        nxt = first_qualifying(c, lang, "01")
+        s_lines.append(el_search_line("standard", lang, e2, nxt - e2 + 1))
+        ctx.count("electrum.search", f"standard:{lang}:bip39-with-prefix-skipped")
+    # a candidate that carries the prefix AND is a pre-2.0 seed (twelve words all in the old list): passed over
+    old_set = set(electrum._old_wordlist())
+    shared_idx = [i for i, w in enumerate(_el_words("en")) if w in old_set]
+    if len(shared_idx) < 50:
+        raise common.HarnessError("electrum.search: the English and the pre-2.0 list share too few words")
+    for _ in range(ctx.n(1, 3)):
+        for _try in range(200000):
+            idx = [rng.choice(shared_idx) for _ in range(12)]
+            if idx[-1] == 0:
+                continue
+            c = sum(i * 2048 ** k for k, i in enumerate(idx))
+            if T.ref_seed_version(ref_el_sentence(c, "en")).startswith("01"):
+                break
+        else:
+            raise common.HarnessError("electrum.search: no old-seed candidate with the prefix found")
+        if not T.ref_is_old_seed(ref_el_sentence(c, "en")):
+            raise common.HarnessError("electrum.search: constructed old seed is not recognised by the reference")
+        nxt = first_qualifying(c, "en", "01")
+        s_lines.append(el_search_line("standard", "en", c - 1, nxt - c + 2))
+        ctx.count("electrum.search", "standard:en:old-with-prefix-skipped")
+    # types that are no key of _MNEMONIC_VERSIONS
+    for typ in ["old", "Standard", "bip39", "2FA"]:
+        s_lines.append(el_search_line(typ, "en", rng.getrandbits(128), 2))
+    ctx.stream("electrum.search", s_lines)
+    # Electrum's bip39_is_checksum_valid over its own lists (2048 words, and the 1626 of Portuguese read with 11 bits)
+    for j in range(ctx.n(120, 1200)):
+        lang = ["en", "pt", "ja", "pt"][j % 4]
+        base = len(_el_words(lang))
+        nw = rng.choice([12, 12, 12, 15, 18, 21, 24, 24, 11, 13, 25, 1])
+        b_lines.append(f"electrum.isbip39 {nats([rng.randrange(base) for _ in range(nw)])} {base} {lang}")
+        if j % 6 == 0:           # a sentence BIP39 itself generated: valid by construction for the 2048-word lists
+            l2 = rng.choice(["en", "ja", "es"])
+            m = bip39.mnemonic_from_entropy(common.rand_bytes(rng, rng.choice([16, 20, 24, 28, 32])), l2)
+            idx = indexes_from_mnemonic(m, l2, WORDLISTS)
+            b_lines.append(f"electrum.isbip39 {nats(idx)} 2048 {l2}")
+            b_lines.append(f"electrum.isbip39 {nats(idx[:-1] + [idx[-1] ^ 1])} 2048 {l2}")
+    ctx.stream("electrum.isbip39", b_lines)
     ctx.stream("electrum.index", lines)
     ctx.stream("electrum.seed", seed_lines)
 
